@@ -87,6 +87,19 @@ Definition nlook (tok : bool) (p : list N -> bool) : aexp := if tok then ALook (
 
 Definition n_hexint := 61.    (* tokenised reading only *)
 Definition n_otherint := 62.
+Definition n_notbytes := 63.
+
+(* ... and so does a byte string: where a type or group entry starts with h or b64 immediately followed by a single
+   quote (or h and a double quote, the documented leniency), that is the beginning of a byte string literal, not
+   the name h / b64 followed by a quoted string *)
+Definition bytes_prefix (ci : bool) (r : list N) : bool :=
+  let eqc (c x : N) := (c =? x) || (ci && (c + 32 =? x)) in
+  match r with
+  | c :: 39 :: _ => eqc c 104
+  | c :: 34 :: _ => c =? 104
+  | c :: 54 :: 52 :: 39 :: _ => eqc c 98
+  | _ => false
+  end.
 
 Definition abnf8610_gen (tok : bool) : cfg :=
   let boundary := if tok then ALook name_boundary else AEps in
@@ -119,7 +132,7 @@ Definition abnf8610_gen (tok : bool) : cfg :=
            / "#" DIGIT ["." uint]                ; major/ai
            / "#"                                 ; any *)
   (n_type2, AAlts [R n_value;
-                   ASeqs [R n_typename; AOpt (R n_genericarg)];
+                   ASeqs [R n_notbytes; R n_typename; AOpt (R n_genericarg)];
                    ASeqs [L "("; S_; R n_type; S_; L ")"];
                    ASeqs [L "{"; S_; R n_group; S_; L "}"];
                    ASeqs [L "["; S_; R n_group; S_; L "]"];
@@ -144,7 +157,7 @@ Definition abnf8610_gen (tok : bool) : cfg :=
             / [occur S] groupname [genericarg]  ; preempted by above
             / [occur S] "(" S group S ")" *)
   (n_grpent, AAlts [ASeqs [AOpt (ASeqs [R n_occur; S_]); AOpt (ASeqs [R n_memberkey; S_]); R n_type];
-                    ASeqs [AOpt (ASeqs [R n_occur; S_]); R n_groupname; AOpt (R n_genericarg)];
+                    ASeqs [AOpt (ASeqs [R n_occur; S_]); R n_notbytes; R n_groupname; AOpt (R n_genericarg)];
                     ASeqs [AOpt (ASeqs [R n_occur; S_]); L "("; S_; R n_group; S_; L ")"]]);
   (* memberkey = type1 S ["^" S] "=>" / bareword S ":" / value S ":" *)
   (n_memberkey, AAlts [ASeqs [R n_type1; S_; AOpt (ASeqs [L "^"; S_]); L "=>"];
@@ -227,7 +240,9 @@ Definition abnf8610_gen (tok : bool) : cfg :=
   (* NONASCII = %xA0-D7FF / %xE000-10FFFD                           RFC 9682 2.1 *)
   (n_NONASCII, AAlts [ARng 160 55295; ARng 57344 1114109]);
   (* CRLF = %x0A / %x0D.0A *)
-  (n_CRLF, AAlts [AChr 10; ASeqs [AChr 13; AChr 10]])
+  (n_CRLF, AAlts [AChr 10; ASeqs [AChr 13; AChr 10]]);
+  (* (tokenised reading only) not the start of a byte string literal *)
+  (n_notbytes, if tok then ALook (fun r => negb (bytes_prefix true r)) else AEps)
 ].
 
 (* The leniencies /repo/cddl.pest documents, each as an extra production ("=/") for an RFC rule name: *)
